@@ -485,6 +485,23 @@ def guarded_leaves(t: T, pc: tuple = ()):
     return [(pc, t)]
 
 
+def split_returns(returns):
+    """`return a if c else b` is `if c: return a` / `else: return b`: one record per leaf of a conditional return value."""
+    import copy
+    out = []
+    for r in returns:
+        leaves = guarded_leaves(r.value) if r.value is not None and r.value.op == "ite" else None
+        if not leaves or len(leaves) == 1:
+            out.append(r)
+            continue
+        for pc, leaf in leaves:
+            x = copy.copy(r)
+            x.value = leaf
+            x.pc = tuple(r.pc) + tuple(pc)
+            out.append(x)
+    return out
+
+
 def pc_term(pc: tuple) -> T:
     parts = tuple(c if p else T("not", (c,)) for c, p in pc)
     if not parts:
